@@ -185,6 +185,13 @@ type world struct {
 	clock string
 	// expClass: for the shares of the expiry stores, the class of their "expires" value.
 	expClass map[blob.Ref]string
+	// delShape: for the shares of the multi-deleter stores, the shape of the deletion forest over them.
+	delShape map[blob.Ref]string
+	// shallowNonShares: chains whose head is not a share claim are enumerated up to ONE via blob only
+	// (they are refused at the head whatever follows; the four generic templates enumerate them in full)
+	shallowNonShares bool
+	// forged: claims whose signature does not verify (by construction)
+	forged map[blob.Ref]bool
 }
 
 func newWorld(id, template string) *world {
@@ -201,6 +208,20 @@ func (w *world) add(b sto.Blob, label string) blob.Ref {
 	w.nodes[b.Ref] = parseNode(b, label)
 	w.order = append(w.order, b.Ref)
 	return b.Ref
+}
+
+// addForged adds a claim whose JSON signature does not verify (the generator altered a signed
+// field after signing).  The model cannot check signatures itself; it is told by construction.
+// doc/schema: a claim REQUIRES a JSON signature, so a blob whose signature does not verify is
+// not a claim of anybody and has no effect.
+func (w *world) addForged(b sto.Blob, label string) blob.Ref {
+	r := w.add(b, label)
+	w.nodes[r].signed = false
+	if w.forged == nil {
+		w.forged = map[blob.Ref]bool{}
+	}
+	w.forged[r] = true
+	return r
 }
 
 func (w *world) finish() {
